@@ -31,6 +31,10 @@ pub struct FdCase {
     pub fault: Option<(u32, i32)>,
     /// child-side fault for spawn scenarios: (syscall name, nth, errno)
     pub child_fault: Option<(String, u32, i32)>,
+    /// the faulted call is really executed and only its return value replaced (used for
+    /// close(2): Linux releases the descriptor even when close reports EINTR/EIO)
+    #[serde(default)]
+    pub after_exec: bool,
 }
 
 /// What an operation hands to its caller: the raw descriptors it claims to own, and a value
@@ -579,12 +583,13 @@ pub struct RunResult {
 }
 
 /// Run one (scenario, fault) pair and judge it.
-pub fn run_case(env: &Env, name: &str, op: Op, fault: Option<(u32, i32)>, child_fault: &Option<(String, u32, i32)>, rep: &mut CaseReport) -> Result<Vec<sc::verif::Call>, Failure> {
+pub fn run_case(env: &Env, name: &str, op: Op, fault: Option<(u32, i32)>, after_exec: bool, child_fault: &Option<(String, u32, i32)>, rep: &mut CaseReport) -> Result<Vec<sc::verif::Call>, Failure> {
     reset_files(env);
     let before = snapshot();
     let mut rules = Vec::new();
     if let Some((j, e)) = fault {
-        rules.push(Rule { nr: None, nth: Some(j as usize), action: Action::ForceRet(sc::verif::neg_errno(e)), times: 1 });
+        let action = if after_exec { Action::ExecThenRet(sc::verif::neg_errno(e)) } else { Action::ForceRet(sc::verif::neg_errno(e)) };
+        rules.push(Rule { nr: None, nth: Some(j as usize), action, times: 1 });
     }
     if let Some((sys, nth, e)) = child_fault {
         let nr = match sys.as_str() {
@@ -603,8 +608,9 @@ pub fn run_case(env: &Env, name: &str, op: Op, fault: Option<(u32, i32)>, child_
     if unsafe { libc::getpid() } != parent {
         unsafe { libc::_exit(0) };
     }
-    let log = sc::verif::log_end();
-    sc::verif::clear_plan();
+    // the plan stays active through the drop of the returned value (faults may target the closes
+    // issued there); the log is split at this point
+    let log = sc::verif::log_peek();
     let held = held.map_err(|(loc, msg)| Failure::new(format!("{name}|panic|{loc}"), format!("{name} panicked at {loc}: {msg}")))?;
 
     let after = snapshot();
@@ -652,9 +658,10 @@ pub fn run_case(env: &Env, name: &str, op: Op, fault: Option<(u32, i32)>, child_
         unsafe { libc::close(*fd) };
     }
     let log_len = log.len();
-    sc::verif::log_begin();
     drop(held);
-    let drop_log = sc::verif::log_end();
+    let full_log = sc::verif::log_end();
+    sc::verif::clear_plan();
+    let drop_log: Vec<sc::verif::Call> = full_log[log_len.min(full_log.len())..].to_vec();
     for c in &drop_log {
         if c.nr == sc::nr::CLOSE && c.executed {
             let fd = c.args[0] as i32;
@@ -671,8 +678,7 @@ pub fn run_case(env: &Env, name: &str, op: Op, fault: Option<(u32, i32)>, child_
     ensure!(end == before, format!("{name}|descriptor table changed"), "{name} ({step}): descriptor table after drop differs from before");
     rep.class_if(!new_fds.is_empty(), "returned-descriptors");
     rep.class_if(!closed.is_empty(), "closed-on-the-way");
-    let _ = log_len;
-    Ok(log)
+    Ok(full_log)
 }
 
 pub fn check_case(env: &Env, c: &FdCase) -> CaseResult {
@@ -681,12 +687,17 @@ pub fn check_case(env: &Env, c: &FdCase) -> CaseResult {
     let Some((name, op)) = scn.iter().find(|(n, _)| *n == c.scenario) else {
         return Err(Failure::new("harness|unknown scenario", c.scenario.clone()));
     };
-    run_case(env, name, *op, c.fault, &c.child_fault, &mut rep)?;
+    let r = run_case(env, name, *op, c.fault, c.after_exec, &c.child_fault, &mut rep);
+    // never leave a plan or an open log behind (error paths return early)
+    let _ = sc::verif::log_end();
+    sc::verif::clear_plan();
+    r?;
     reap();
     rep.nontrivial_if(c.fault.map(|(j, _)| j >= 1).unwrap_or(false) || c.child_fault.is_some());
     rep.class_if(c.fault.is_none() && c.child_fault.is_none(), "no-fault");
     rep.class_if(c.fault.is_some(), "parent-fault");
     rep.class_if(c.child_fault.is_some(), "child-fault");
+    rep.class_if(c.after_exec, "close-reports-error-after-releasing");
     Ok(rep)
 }
 
@@ -718,11 +729,14 @@ pub fn run(ctx: &Ctx) {
             continue;
         }
         // dry run: the syscall sequence of the fault-free operation
-        let base = FdCase { scenario: name.to_string(), fault: None, child_fault: None };
+        let base = FdCase { scenario: name.to_string(), fault: None, child_fault: None, after_exec: false };
         let mut dry_log = Vec::new();
         let ok = ctx.run_one("fd-table", &base, || {
             let mut rep = CaseReport::new();
-            dry_log = run_case(&env, name, *op, None, &None, &mut rep)?;
+            let r = run_case(&env, name, *op, None, false, &None, &mut rep);
+            let _ = sc::verif::log_end();
+            sc::verif::clear_plan();
+            dry_log = r?;
             reap();
             rep.class("no-fault");
             Ok(rep)
@@ -731,13 +745,26 @@ pub fn run(ctx: &Ctx) {
         let mut seen_sigs = !ok;
         // every index of the sequence, each plausible errno (quick: the first one)
         for (j, call) in dry_log.iter().enumerate() {
+            if call.nr == sc::nr::CLOSE {
+                // close(2) releases the descriptor even when it reports an error: execute it,
+                // then answer EINTR / EIO. The operation must not close that number again.
+                for &e in &[libc::EINTR, libc::EIO][..if all_errnos { 2 } else { 1 }] {
+                    let case = FdCase { scenario: name.to_string(), fault: Some((j as u32, e)), child_fault: None, after_exec: true };
+                    let ok = ctx.run_one("fd-table", &case, || check_case(&env, &case));
+                    total += 1;
+                    if !ok {
+                        seen_sigs = true;
+                    }
+                }
+                continue;
+            }
             if never_fault(call.nr) {
                 continue;
             }
             let errs = plausible_errnos(call.nr);
             let errs: &[i32] = if all_errnos { errs } else { &errs[..errs.len().min(2)] };
             for &e in errs {
-                let case = FdCase { scenario: name.to_string(), fault: Some((j as u32, e)), child_fault: None };
+                let case = FdCase { scenario: name.to_string(), fault: Some((j as u32, e)), child_fault: None, after_exec: false };
                 let ok = ctx.run_one("fd-table", &case, || check_case(&env, &case));
                 total += 1;
                 if !ok {
@@ -749,7 +776,7 @@ pub fn run(ctx: &Ctx) {
             for (sys, n) in [("dup3", 3u32), ("execve", 1), ("chdir", 1)] {
                 for nth in 0..n {
                     for &e in &[libc::EMFILE, libc::EACCES][..if all_errnos { 2 } else { 1 }] {
-                        let case = FdCase { scenario: name.to_string(), fault: None, child_fault: Some((sys.to_string(), nth, e)) };
+                        let case = FdCase { scenario: name.to_string(), fault: None, child_fault: Some((sys.to_string(), nth, e)), after_exec: false };
                         let ok = ctx.run_one("fd-table", &case, || check_case(&env, &case));
                         total += 1;
                         if !ok {
